@@ -129,6 +129,15 @@ func (m *modeler) applyField(f *field, v reflect.Value, cv *cval, pc polCtx) {
 		}
 		m.applyStruct(f.sub, v, cv, pc.below())
 	case kPtrStruct:
+		if f.inline && !v.IsNil() {
+			// a pre-filled inlined pointee is part of the enclosing struct: it
+			// is visited like a struct held by value, mentioned or not
+			if absent {
+				cv = nil
+			}
+			m.applyStruct(f.sub, v.Elem(), cv, pc.below())
+			return
+		}
 		if absent || f.inline && cv.real == 0 {
 			// not allocated, InitDefaults not called (an inlined struct is
 			// mentioned when one of its fields is)
